@@ -517,6 +517,29 @@ func compress(p []byte) []byte {
 
 type noReset struct{ r io.Reader }
 
+// Sources of kinds whose values cannot be compared with == (a func-typed adapter, a struct value holding a slice):
+// legal io.Readers like any other.
+type funcSrc func(p []byte) (int, error)
+
+func (f funcSrc) Read(p []byte) (int, error) { return f(p) }
+
+type sliceSrc struct {
+	r   io.Reader
+	tag []byte
+}
+
+func (s sliceSrc) Read(p []byte) (int, error) { return s.r.Read(p) }
+
+func srcKind(kind int, r io.Reader) io.Reader {
+	switch kind {
+	case 1:
+		return funcSrc(r.Read)
+	case 2:
+		return sliceSrc{r: r, tag: []byte("x")}
+	}
+	return r
+}
+
 // failClose / failCloseReset: decompressors whose Close reports an error.
 type failClose struct{ r io.Reader }
 
@@ -588,6 +611,7 @@ func subFlateReader() mon.Sub {
 				return out[:len(out)-4]
 			}
 			hist := compress(bytes.Repeat([]byte("history data "), 1+c.Rng.Intn(300)))
+			skind := c.I / 7 % 3 // the kind of io.Reader the sources are: as they come, func-typed, struct values
 			hkind := c.I / 2 % 6
 			hdesc := ""
 			var a *wsflate.Reader
@@ -628,6 +652,7 @@ func subFlateReader() mon.Sub {
 						hsrc = xport.ByteChunker{Chunker: hsrc.(*xport.Chunker)}
 						kind = "byte"
 					}
+					hsrc = srcKind(skind, hsrc)
 					if a == nil {
 						a = wsflate.NewReader(hsrc, ctor)
 					} else {
@@ -668,7 +693,7 @@ func subFlateReader() mon.Sub {
 				if byteReader {
 					return xport.ByteChunker{Chunker: ch}
 				}
-				return ch
+				return srcKind(skind, ch)
 			}
 			a.Reset(src())
 			b := wsflate.NewReader(src(), ctor)
@@ -678,7 +703,7 @@ func subFlateReader() mon.Sub {
 			ca, cb := a.Close(), b.Close()
 			if !bytes.Equal(ra, rb) || fmt.Sprint(ea) != fmt.Sprint(eb) || fmt.Sprint(ca) != fmt.Sprint(cb) {
 				c.Fail(fmt.Sprintf("flate-reader/reset/history-%d", hkind), fmt.Sprintf("a decompression reader after Reset differs from a new one: %d bytes err=%v close=%v vs %d bytes err=%v close=%v", len(ra), ea, ca, len(rb), eb, cb),
-					map[string]interface{}{"history": hdesc, "resettable": resettable, "close_fails": closeFails, "preset_dictionary": dict != nil, "stream_variant": variant, "plan": plan.String(), "byte_reader": byteReader})
+					map[string]interface{}{"history": hdesc, "source_kind": []string{"as it comes", "func-typed", "struct value with a slice"}[skind], "resettable": resettable, "close_fails": closeFails, "preset_dictionary": dict != nil, "stream_variant": variant, "plan": plan.String(), "byte_reader": byteReader})
 				return
 			}
 			if variant == 0 && (!bytes.Equal(rb, msg) || eb != nil) {
